@@ -58,6 +58,17 @@ func freeOfType(cl *ssa.Function, pred func(types.Type) bool) string {
 		return name
 	}
 	for _, fv := range cl.FreeVars {
+		if stt := holderFree[fv]; stt != nil {
+			// a captured holder struct: its fields
+			for i := 0; i < stt.NumFields(); i++ {
+				t := stt.Field(i).Type()
+				if pt, ok := t.Underlying().(*types.Pointer); ok && pred(pt.Elem()) || pred(t) {
+					name = stt.Field(i).Name()
+					n++
+				}
+			}
+			continue
+		}
 		t := fv.Type()
 		if pt, ok := t.Underlying().(*types.Pointer); ok {
 			t = pt.Elem()
@@ -235,7 +246,42 @@ func loopPhiOfType(fn *ssa.Function, pred func(types.Type) bool) string {
 // capturedVarAlloc: the local of parent behind the callback's captured
 // variable: the captured local itself (closure form) or the environment struct
 // that holds it as a field (method form, see envInfo).
+// holderAllocOf: the parent's holder struct variable one of whose fields is name.
+func holderAllocOf(parent, cl *ssa.Function, name string) *ssa.Alloc {
+	if cl == nil || parent == nil {
+		return nil
+	}
+	for i, fv := range cl.FreeVars {
+		stt := holderFree[fv]
+		if stt == nil {
+			continue
+		}
+		has := false
+		for k := 0; k < stt.NumFields(); k++ {
+			if stt.Field(k).Name() == name {
+				has = true
+			}
+		}
+		if !has {
+			continue
+		}
+		for _, b := range parent.Blocks {
+			for _, in := range b.Instrs {
+				if mc, ok := in.(*ssa.MakeClosure); ok && mc.Fn == ssa.Value(cl) && i < len(mc.Bindings) {
+					if a, ok := mc.Bindings[i].(*ssa.Alloc); ok {
+						return a
+					}
+				}
+			}
+		}
+	}
+	return nil
+}
+
 func capturedVarAlloc(parent, cl *ssa.Function, name string) *ssa.Alloc {
+	if a := holderAllocOf(parent, cl, name); a != nil {
+		return a
+	}
 	if envMethods[cl] != nil {
 		if mc := envMakeClosure(parent, cl); mc != nil && len(mc.Bindings) == 1 {
 			a, _ := mc.Bindings[0].(*ssa.Alloc)
@@ -260,7 +306,7 @@ func capturedVarAlloc(parent, cl *ssa.Function, name string) *ssa.Alloc {
 // capturedVarStores: the stores in parent that assign the captured variable.
 func capturedVarStores(parent, cl *ssa.Function, name string) []*ssa.Store {
 	var out []*ssa.Store
-	if envMethods[cl] != nil {
+	if envMethods[cl] != nil || holderAllocOf(parent, cl, name) != nil {
 		a := capturedVarAlloc(parent, cl, name)
 		if a == nil {
 			return nil
